@@ -284,7 +284,7 @@ static void do_tb(vf_case *c) {
 }
 
 static void run_case(vf_case *c) {
-	vf_nontrivial();
+	vf_nontrivial(); if (!vf_replaying) vf_stat_add("states", 1); /* a state = one (scheme, parameter set, seed, message) configuration, walked through its whole mutation battery */
 	if (!strcmp(c->op, "ecdsa")) do_ecdsa(c); else if (!strcmp(c->op, "ecss")) do_ecss(c); else if (!strcmp(c->op, "rsa")) do_rsa(c); else if (!strcmp(c->op, "pair")) do_pair(c); else if (!strcmp(c->op, "tb")) do_tb(c); else vf_fail(NULL, "unknown op");
 }
 
